@@ -92,7 +92,7 @@ def rule_total(ctx):
         esc = ex.compute(funcs)
         bad = {}
         for f in funcs:
-            for c, w in esc.get(f.fq, {}).items():
+            for (c, origin), w in esc.get(f.fq, {}).items():
                 bad.setdefault(c.name, w)
         for e in exts:
             for c in implicit.get(e, []):
@@ -224,7 +224,7 @@ def rule_catch(ctx):
     esc = ex2.compute(roots)
     raised = {}
     for fq, d in esc.items():
-        for c, wit in d.items():
+        for (c, origin), wit in d.items():
             if ex2.is_sub(c, base_error):
                 raised.setdefault(c.name, (c, wit))
     for name, (c, wit) in sorted(raised.items()):
